@@ -237,7 +237,7 @@ def check():
         else:
             o.inconc("UNCONFIRMED: lemma(s) fail (%s) but the real parser builds the same trees with and without the memo table on %d texts" % ("; ".join(bad[:3]), len(detail)))
     elif mism:
-        o.inconc("translator validation failed: real parser differs with/without memo (%s) although every lemma holds" % mism[:3])
+        o.oracle_only("real parser differs with/without memo (%s) although every lemma holds" % mism[:3], rdir)
     return o.finish()
 
 
